@@ -100,7 +100,7 @@ fn scenarios_of(prop: &str, tier: Tier) -> Vec<HScn> {
     let q = tier == Tier::Quick;
     match prop {
         "C02" | "C08" => {
-            for (y, l_quick, l_thorough) in [(W1, 2, 3), (W2, 2, 3), (W3, 2, 3), (W4, 2, 3), (W3B, 2, 3), (W6, 2, 3), (W9A, 2, 3), (W9B, 2, 3)] {
+            for (y, l_quick, l_thorough) in [(W1, 2, 3), (W2, 2, 3), (W3, 2, 3), (W4, 2, 3), (W3B, 2, 3), (W6, 2, 3), (W9A, 2, 3), (W9B, 2, 3), (W7, 2, 2), (W8, 2, 2)] {
                 let l = if q { l_quick } else { l_thorough };
                 let mut c = full_cfg(l);
                 if y == W3B {
